@@ -132,78 +132,55 @@ def check(model, rep):
 
     # ---------------------------------------------------------------- R04.1
     rep.rule('R04.1', 'each constructor form reads exactly the elements of its description, each into the slot of the same position')
-    f6 = M('from6DOF')
-    ia = f6.params[1]
-    branches = [n for n in f6.body() if isinstance(n, ast.If)]
-    if not branches:
-        raise AnalysisError('from6DOF: rpy dispatch not recognised')
-    fb = flag_branches(branches[0], f6.params[2])
-    if fb is None:
-        raise AnalysisError('from6DOF: rpy dispatch not recognised')
-    for label, body in (('axis-angle', fb[0]), ('rpy', fb[1])):
-        st = [n for n in body if isinstance(n, ast.Assign) and src(n.targets[0]) == 'self.TAA']
-        elts = slot_literal(st[0].value) if st else None
-        ok, msg = False, 'six-slot literal not found'
-        if elts is not None:
-            ok = True
-            msgs = []
-            for k in range(3):
-                if index_path(elts[k], ia) != (k,):
-                    ok = False
-                    msgs.append('slot %d <- %s' % (k, src(elts[k])))
-            if label == 'axis-angle':
-                for k in range(3, 6):
-                    if index_path(elts[k], ia) != (k,):
-                        ok = False
-                        msgs.append('slot %d <- %s' % (k, src(elts[k])))
-            else:
-                # rotation slots come from a product of single-axis transforms; each reads its own element in its own slot
-                singles = []
-                for n in body:
-                    for c in ast.walk(n):
-                        if isinstance(c, ast.Call) and src(c.func) == 'tm' and c.args and isinstance(c.args[0], ast.List) and len(c.args[0].elts) == 6:
-                            singles.append(c.args[0].elts)
-                used = {}
-                for lit in singles:
-                    for pos, el in enumerate(lit):
-                        p = index_path(el, ia)
-                        if p is not None:
-                            used[p[0]] = pos
-                if used != {3: 3, 4: 4, 5: 5}:
-                    ok = False
-                    msgs.append('rpy angles element->slot map is %s, expected {3:3, 4:4, 5:5}' % used)
-            msg = '; '.join(msgs) or 'ok'
-        rep.ob('R04.1', f6, 'from6DOF (%s): elements 0..5 -> slots 0..5' % label, ok, msg, line=st[0].lineno if st else None)
-    f3 = M('from3DOF')
-    ia3 = f3.params[1]
-    br3 = [n for n in f3.body() if isinstance(n, ast.If)]
-    fb3 = flag_branches(br3[0], f3.params[2]) if br3 else None
-    if br3 and fb3 is None:
-        raise AnalysisError('from3DOF: rpy dispatch not recognised')
-    if br3:
-        st = [n for n in fb3[0] if isinstance(n, ast.Assign) and src(n.targets[0]) == 'self.TAA']
-        elts = slot_literal(st[0].value) if st else None
-        ok = elts is not None and all(isinstance(elts[k], ast.Constant) and elts[k].value == 0 for k in range(3)) and \
-            all(index_path(elts[3 + k], ia3) == (k,) for k in range(3))
-        rep.ob('R04.1', f3, 'from3DOF (axis-angle): elements 0..2 -> slots 3..5', ok, 'rotation elements are not placed one-to-one')
-        used = {}
-        for n in fb3[1]:
-            for c in ast.walk(n):
-                if isinstance(c, ast.Call) and src(c.func) == 'tm' and c.args and isinstance(c.args[0], ast.List) and len(c.args[0].elts) == 6:
-                    for pos, el in enumerate(c.args[0].elts):
-                        p = index_path(el, ia3)
-                        if p is not None:
-                            used[p[0]] = pos
-        rep.ob('R04.1', f3, 'from3DOF (rpy): elements 0..2 -> single-axis slots 3..5', used == {0: 3, 1: 4, 2: 5}, 'element->slot map is %s' % used)
+    from ..engine.elemflow import ElemEval, show as eshow
+    methods = {n_: f_.node for n_, f_ in tm.methods.items()}
+
+    def run_form(meth, flag):
+        fi_ = M(meth)
+        ev_ = ElemEval(methods, fi_.params[1], {fi_.params[2]: flag} if len(fi_.params) > 2 else {})
+        ev_.block(fi_.body(), {})
+        return fi_, ev_
+
+    def el(*path):
+        return ('el', tuple(path))
+    Z = ('num', 0)
+
+    def single(slot, v):
+        return ('pose', tuple(v if k == slot else Z for k in range(6)))
+
+    def zero_like(v):
+        return v[0] == 'num' and v[1] == 0
+
+    # six-vector form, axis-angle: slot k <- element k
+    f6, e6 = run_form('from6DOF', False)
+    got = e6.stores.get('self.TAA', ('unk', 'no store'))
+    rep.ob('R04.1', f6, 'from6DOF (axis-angle): elements 0..5 -> slots 0..5', got == ('lst', tuple(el(k) for k in range(6))),
+           'with rpy false the six-vector becomes %s; expected [x[0], x[1], x[2], x[3], x[4], x[5]]' % eshow(got))
+    # six-vector form, rpy: position slots from elements 0..2, rotation = vector of Rx(x[3]) @ Ry(x[4]) @ Rz(x[5])
+    f6, e6 = run_form('from6DOF', True)
+    got = e6.stores.get('self.TAA', ('unk', 'no store'))
+    P6 = ('prod', (single(3, el(3)), single(4, el(4)), single(5, el(5))))
+    want = ('lst', (el(0), el(1), el(2), ('slot', P6, 3), ('slot', P6, 4), ('slot', P6, 5)))
+    rep.ob('R04.1', f6, 'from6DOF (rpy): elements 0..2 -> position, rotation vector of Rx(x[3]) @ Ry(x[4]) @ Rz(x[5])', got == want,
+           'with rpy true the six-vector becomes %s; expected %s' % (eshow(got), eshow(want)))
+    f3, e3 = run_form('from3DOF', False)
+    got = e3.stores.get('self.TAA', ('unk', 'no store'))
+    ok = got[0] == 'lst' and len(got[1]) == 6 and all(zero_like(x) for x in got[1][:3]) and got[1][3:] == (el(0), el(1), el(2))
+    rep.ob('R04.1', f3, 'from3DOF (axis-angle): elements 0..2 -> slots 3..5', ok, 'with rpy false the six-vector becomes %s; expected [0, 0, 0, x[0], x[1], x[2]]' % eshow(got))
+    f3, e3 = run_form('from3DOF', True)
+    got = e3.stores.get('self.TAA', ('unk', 'no store'))
+    P3 = ('prod', (single(3, el(0)), single(4, el(1)), single(5, el(2))))
+    rep.ob('R04.1', f3, 'from3DOF (rpy): six-vector of Rx(x[0]) @ Ry(x[1]) @ Rz(x[2])', got == ('gtaa', P3),
+           'with rpy true the six-vector becomes %s; expected %s' % (eshow(got), eshow(('gtaa', P3))))
     f7 = M('from7DOF')
-    ia7 = f7.params[1]
-    st = [n for n in f7.body() if isinstance(n, ast.Assign) and src(n.targets[0]) == 'self.TAA']
-    elts = slot_literal(st[0].value) if st else None
-    ok = elts is not None and all(index_path(elts[k], ia7) == (k,) for k in range(3))
-    q = [c for c in walk_own(f7.node) if isinstance(c, ast.Call) and isinstance(c.func, ast.Attribute) and c.func.attr == 'setQuat']
-    okq = len(q) == 1 and index_path(q[0].args[0], ia7) == (('from', 3),)
+    e7 = ElemEval(methods, f7.params[1], {})
+    e7.block(f7.body(), {})
+    got = e7.stores.get('self.TAA', ('unk', 'no store'))
+    ok = got[0] == 'lst' and len(got[1]) == 6 and got[1][:3] == (el(0), el(1), el(2)) and all(zero_like(x) for x in got[1][3:])
+    q = [c for c in e7.calls if c[0] == 'setQuat']
+    okq = len(q) == 1 and q[0][1] == [('tail', (), 3)]
     rep.ob('R04.1', f7, 'from7DOF: elements 0..2 -> position, elements 3.. -> quaternion', ok and okq,
-           'position/quaternion split of the 7-vector is not (0,1,2 | 3:)')
+           'position/quaternion split of the 7-vector is not (0,1,2 | 3:): six-vector %s, setQuat(%s)' % (eshow(got), ', '.join(eshow(x) for c in q for x in c[1])))
     init = M('__init__')
     iai = init.params[1]
     il_init = Inliner(init)
@@ -222,14 +199,13 @@ def check(model, rep):
     if pair is None:
         rep.ob('R04.1', init, 'nested [position, rotation] pair form', False, 'the len-2 branch of the list dispatch is missing')
     else:
-        lit = None
-        for c in ast.walk(pair):
-            if isinstance(c, ast.Call) and isinstance(c.func, ast.Attribute) and c.func.attr == 'from6DOF' and c.args and isinstance(c.args[0], ast.List):
-                lit = c.args[0].elts
-        want = [(0, 0), (0, 1), (0, 2), (1, 0), (1, 1), (1, 2)]
-        got = [index_path(e, iai) for e in lit] if lit else None
+        ep = ElemEval(methods, iai, {})
+        ep.block(pair.body, {})
+        c6 = [c for c in ep.calls if c[0] == 'from6DOF']
+        want = ('lst', (el(0, 0), el(0, 1), el(0, 2), el(1, 0), el(1, 1), el(1, 2)))
+        got = c6[0][1][0] if len(c6) == 1 and c6[0][1] else ('unk', 'no from6DOF call')
         rep.ob('R04.1', init, 'pair form: [[x,y,z],[rx,ry,rz]] -> slots 0..5', got == want,
-               'the pair form reads elements %s; expected %s (an element that is read twice shadows one that is never read)' % (got, want),
+               'the pair form passes %s; expected %s (an element that is read twice shadows one that is never read)' % (eshow(got), eshow(want)),
                line=pair.lineno)
     # dispatch: each list/array length routes to the constructor of that length
     routes = {}
